@@ -168,6 +168,10 @@ def check(case, ctx):
     if case["mode"] == "pair":
         ma, mb = model.from_spec(case["a"]), model.from_spec(case["b"])
         a, b = gen.build(case["a"]), gen.build(case["b"])
+        import zlib
+        sa_, sb_ = zlib.crc32(repr(case["a"]["labels"]).encode()), zlib.crc32(repr(case["b"]["labels"]).encode())
+        common.set_fillattrs(a, sa_, ctx.outcomes), common.set_fillattrs(b, sb_ + 1, ctx.outcomes)
+        common.set_tols(a, sa_ + 2, ctx.outcomes), common.set_tols(b, sb_ + 3, ctx.outcomes)
         if case["a"].get("history") and case["b"].get("history"):
             # the options have been switched off and on again (written directly into rcParams, as the documentation shows):
             # the defaults are in force again
@@ -181,7 +185,7 @@ def check(case, ctx):
             ctx.outcomes['options-toggled-before'] += 1
         for label, fn, x, y in (("a %s b" % op, lambda: pyop(a, b), ma, mb), ("b %s a" % op, lambda: pyop(b, a), mb, ma)):
             label = "%s with a: dims=%r labels=%s; b: dims=%r labels=%s" % (label, ma.dims, codec.short(ma.labels, 160), mb.dims, codec.short(mb.labels, 160))
-            res, exc = ctx.call(label, fn, operands=(a, b), meta='drop')
+            res, exc = ctx.call(label, fn, operands=(a, b), meta='drop', ambient=True)
             if exc is not None:
                 ctx.v(ID, "pair-raised:" + type(exc).__name__, "%s raised %s: %s" % (label, type(exc).__name__, str(exc)[:200]))
                 continue
@@ -216,13 +220,13 @@ def check(case, ctx):
             with np.errstate(all='ignore'):
                 ev = uf(s, m.values)
         label += " with a: %s%s dims=%r" % (m.values.dtype, m.shape, m.dims)
-        res, exc = ctx.call(label, fn, operands=(a,), meta='drop')
+        res, exc = ctx.call(label, fn, operands=(a,), meta='drop', ambient=True)
         exp = model.MA(ev, m.dims, m.labels)
         common.expect(ctx, ID, "scalar-" + case["side"], label, res, exc, exp=exp, must_be_da=True, dtype_kind=np.asarray(ev).dtype.kind)
         return ("scalar", case["stype"], op, case["side"], m.ndim, m.values.dtype.kind)
     arr = case["arr"]
     label = "a %s ndarray%s with a: %s%s" % (op, arr.shape, m.values.dtype, m.shape)
-    res, exc = ctx.call(label, lambda: pyop(a, arr), operands=(a, arr), meta='drop')
+    res, exc = ctx.call(label, lambda: pyop(a, arr), operands=(a, arr), meta='drop', ambient=True)
     with np.errstate(all='ignore'):
         ev = uf(m.values, arr)
     common.expect(ctx, ID, "ndarray-right", label, res, exc, exp=model.MA(ev, m.dims, m.labels), must_be_da=True)
